@@ -296,9 +296,9 @@ func c11Configs(tier string, race bool) []c11Cfg {
 func c11RunCase(cs c11Case) (fs []F) {
 	old := runtime.GOMAXPROCS(1)
 	defer runtime.GOMAXPROCS(old)
-	vs.Global = poolctl.Sched{}
-	va.Hook = func(op string) { schedx.Point(op) }
-	defer func() { vs.Global = nil; va.Hook = nil }()
+	vs.SetGlobal(poolctl.Sched{})
+	va.SetHook(func(op string) { schedx.Point(op) })
+	defer func() { vs.SetGlobal(nil); va.SetHook(nil) }()
 	e := c11Explorer(cs.Cfg)
 	e.Prune = false
 	before := core.RaceErrors()
@@ -346,9 +346,9 @@ func contains(s, sub string) bool {
 func c11Explore(c *core.Ctx, cfgs []c11Cfg, race bool, onFail func(cs c11Case, fs []F)) (execs, trans, states int64, report []map[string]any, capped bool) {
 	old := runtime.GOMAXPROCS(1)
 	defer runtime.GOMAXPROCS(old)
-	vs.Global = poolctl.Sched{}
-	va.Hook = func(op string) { schedx.Point(op) } // every atomic operation of the library is a scheduling point
-	defer func() { vs.Global = nil; va.Hook = nil }()
+	vs.SetGlobal(poolctl.Sched{})
+	va.SetHook(func(op string) { schedx.Point(op) }) // every atomic operation of the library is a scheduling point
+	defer func() { vs.SetGlobal(nil); va.SetHook(nil) }()
 	baseGoroutines := runtime.NumGoroutine()
 	for _, cfg := range cfgs {
 		start := time.Now()
